@@ -3,7 +3,7 @@ import net, gens
 from runner import Script, Cfg
 
 ID = "C09"
-THEOREMS = ["C09_table_keys", "C09_table_nodup", "C09_size", "C09_non_validating_frame_leaves_table"]
+THEOREMS = ["C09_table_keys", "C09_table_nodup", "C09_size", "C09_non_validating_frame_leaves_table", "ClockIndep.ClockIndep_history_ok"]
 MONITORS = ["C09"]
 RULE = ("histories mixing SYN floods (all flag words), wrong-ack data, FIN/RST/ACK, UDP/ICMP/ARP noise and a few valid "
         "handshakes over IPv4/IPv6; after every frame the implementation's table size (hook verif_len) is compared "
